@@ -750,7 +750,11 @@ func genStore(r *rng, tier string, idx int, o *out, do func(string) string) stri
 			shape += "," + name
 		}
 	}
-	if kind != "mem" && opened > 0 && idx%24 == 7 {
+	longEvery := 24
+	if tier == "thorough" {
+		longEvery = 200 // (the byte-exact file model walks its lists: long epochs are expensive on the Lean side)
+	}
+	if kind != "mem" && opened > 0 && idx%longEvery == 7 {
 		// a long epoch: several hundred saves in one store (the index of a file store grows past a page), then the answers of
 		// the refreshed and of the reopened store over the tail, the head and the whole range
 		g := gs[r.intn(opened)]
